@@ -185,3 +185,38 @@ Proof.
   - eexists. split; vm_compute; reflexivity.
   - repeat split; vm_compute; reflexivity.
 Qed.
+
+(* ---- four more accepted-script behaviours that contradict the property text (independent review, 2026-10-02) ---- *)
+Definition view_of (r : pres (list symbol)) : option (list (option string * ptype * option string * option string)) :=
+  match r with POk l => Some (map (fun s => (sname s, stype s, sequation s, scode s)) l) | _ => None end.
+
+(* the SAME statement written twice is accepted when both copies have blanks around "=" (in any number), rejected as "defined
+   twice" when one copy has none: the duplicate test compares normalised texts, and the normaliser never inserts or removes a blank *)
+Example duplicate_statement_respaced_refuted :
+  view_of (parse_model_nocheck ("Y = X" ++ nl_s ++ "Y = X")) = Some [(Some "Y", TEndogenous, Some "Y[t] = X[t]", Some "self._Y[t] = self._X[t]"); (Some "X", TExogenous, None, None)] /\
+  view_of (parse_model_nocheck ("Y = X" ++ nl_s ++ "Y  =  X")) = view_of (parse_model_nocheck ("Y = X" ++ nl_s ++ "Y = X")) /\
+  parse_model_nocheck ("Y = X" ++ nl_s ++ "Y=X") = PErr ParserError /\
+  view_of (parse_model_nocheck "Y=X") = Some [(Some "Y", TEndogenous, Some "Y[t]=X[t]", Some "self._Y[t]=self._X[t]"); (Some "X", TExogenous, None, None)].
+Proof. vm_compute. repeat split; reflexivity. Qed.
+
+(* doubled braces are str.format's escape for a literal brace: accepted, but the normal form then holds single braces and cannot
+   be read back *)
+Example literal_braces_refuted :
+  view_of (parse_model_nocheck "Y = X + max({{1, 2}})")
+  = Some [(Some "Y", TEndogenous, Some "Y[t] = X[t] + max({1, 2})", Some "self._Y[t] = self._X[t] + max({1, 2})"); (Some "X", TExogenous, None, None); (Some "max", TFunction, None, None)] /\
+  parse_equation_M "Y[0] = X[0] + max({1, 2})" = PErr ParserError.
+Proof. vm_compute. split; reflexivity. Qed.
+
+(* a blank before the index bracket of the LEFT-hand side is rejected (equation_re wants \S+ before the "="), on the right-hand
+   side it is accepted and changes the meaning (finding #20) *)
+Example space_before_lhs_index_refuted :
+  parse_model_nocheck "Y [1] = X" = PErr ParserError /\
+  view_of (parse_model_nocheck "Y[1] = X") = Some [(Some "Y", TEndogenous, Some "Y[t+1] = X[t]", Some "self._Y[t+1] = self._X[t]"); (Some "X", TExogenous, None, None)].
+Proof. vm_compute. split; reflexivity. Qed.
+
+(* a "#" inside a quoted period label is cut as a comment: the statement loses its tail (with the syntax check on, ParserError) *)
+Example hash_in_quotes_refuted :
+  view_of (parse_model_nocheck "Y = X['a#b']")
+  = Some [(Some "Y", TEndogenous, Some "Y[t] = X[t]['a[t]", Some "self._Y[t] = self._X[t]['self._a[t]"); (Some "X", TExogenous, None, None); (Some "a", TExogenous, None, None)] /\
+  view_of (parse_model_nocheck "Y = X['a_b']") = Some [(Some "Y", TEndogenous, Some "Y[t] = X['a_b']", Some "self._Y[t] = self['X', 'a_b']"); (Some "X", TExogenous, None, None)].
+Proof. vm_compute. split; reflexivity. Qed.
